@@ -22,7 +22,8 @@ RULE = ("generated trees (depth<=3, <=12 elements) over Group/A/B/Other with nam
         "[Base] [A] [Other] single and list valued with names from the pool plus a dangling name, builtins dict "
         "(0-3 entries, A or Other instances), random layout with comments. non-trivial: some referenced name exists on "
         ">=2 objects of which exactly one conforms, or the builtins fallback or an error path is taken; distinct by "
-        "canonical JSON")
+        "canonical JSON"
+        " the class family is a diamond (Base: Left|Right; Left: A|S; Right: S|B) with references to Left and Right as well")
 ASSUMPTIONS = [
     "the default provider searches the whole model (multi_metamodel_support default)",
     "when several references fail, the first one in textual order is reported",
